@@ -21,7 +21,7 @@ PROP = {
         "Multi.C04.abs_step_conv_stdswap",
         "Multi.C04.abs_step_lists",
     ],
-    "harnesses": [vc.value_harness(["int", "str", "int+full", "str+full"], 4000, 160000)],
+    "harnesses": [vc.value_harness(["int", "str", "int+full", "str+full", "int+perm", "str+perm"], 4000, 160000)],
     "hooks": ["compile_probes", "op_histogram"],
     "trusted_base": TRUSTED_COMMON + [
         "element conversions between the two element types of the run (long -> int, int -> Str) are the identity on the integer image",
